@@ -178,8 +178,10 @@ class ExprMixin:
                 known = False
             elif isinstance(b, Const) and b.value is None and isinstance(a, Poly):
                 sa = a.single_atom()
-                if sa is None or sa[0] in ('app', 'idx'):
+                if sa is None or sa[0] == 'idx':
                     known = False
+                elif sa[0] == 'app' and not sa[1].startswith(('m:', 'call:', 'callv', 'dict', 'kwargs')):
+                    known = False       # arithmetic / array-creating results are never None
             if known is not None:
                 return Const(known if op == 'is' else not known)
             return app(op, P(a), P(b))
